@@ -80,7 +80,7 @@ ThmLockstep == cur.active => PerParse(obj) = PerParse(sh)
 ThmHistoryIndependent == \A i \in 1..Len(hist) : hist[i].eq
 \* pending table text exists only inside the in-table-text phase of a running call (or after an aborted one)
 ThmPendingConfined ==
-    obj.pend # <<>> => IF cur.active THEN obj.phase = "inTableText"
+    obj.pend # <<>> => IF cur.active THEN obj.phase \in {"inTableText", "rejected"}       \* (a rejected call touches nothing)
                        ELSE hist # <<>> /\ Last(hist).out # "ok"
 \* the documents stay inside the modelled vocabulary
 ThmInside == ~obj.outside /\ ~sh.outside
